@@ -14,7 +14,7 @@
 From Coq Require Import List ZArith NArith Bool.
 Require Import Mixin.Base.Res Mixin.Gen.Consts.
 Import ListNotations.
-Open Scope N_scope.
+Local Open Scope N_scope. (* Local: the driver reads mismatch indices printed as n%N *)
 
 (* ---- constants (regenerated from the repository on every run) ----------- *)
 
